@@ -335,18 +335,19 @@ def systematic(hook):
                         continue      # nothing is held between transactions in transaction mode
                     if how == "bindunk" and mode != "transaction":
                         continue
-                    for pre in (True, False):
-                        b = mk(mode, psize, 2, False, "%s/p%d/window-%s-%s%s" % (mode[:4], psize, how, "txn" if intxn else "idle", "" if pre else "-nopre"))
+                    for pre in ("pre", "nopre", "late"):
+                        b = mk(mode, psize, 2, False, "%s/p%d/window-%s-%s-%s" % (mode[:4], psize, how, "txn" if intxn else "idle", pre))
                         if intxn:
                             b.begin("c0")
                         else:
                             b.stmt("c0")
-                        if pre:
+                        if pre == "pre":
                             b.cancel("c0")    # (without it the departing key has never been used before the window)
                         b.hook(["c0"])
                         # c0's task ends on an error path and is parked between handle() returning and the drop of Client
                         b.drop("c0", park=True) if how == "drop" else b.bad("c0", park=True, kind=how)
-                        b.cancel("c0")
+                        if pre != "late":
+                            b.cancel("c0")
                         b.long("c1"); b.cancel("c0"); b.cancel("c1"); b.cancel("c0")
                         b.unpark("c0")
                         b.cancel("c0"); b.cancel("c1")
@@ -365,26 +366,65 @@ def random_program(rng, idx, big):
     b = Builder(mode, psize, n, two, "random#%d" % idx)
     length = rng.randint(8, 14) if not big else rng.randint(12, 24)
     for _ in range(length):
-        if rng.random() < 0.42:
-            r = rng.random()
-            if r < 0.8:
-                b.cancel(rng.choice(b.order))
-            elif r < 0.9:
-                b.cancel("random", rng)
-            else:
-                b.cancel(["pid_of", rng.choice(b.order)])
-            continue
-        acts = [(a, c) for c in b.order for a in ("begin", "stmt", "long", "long", "finish", "finish", "commit", "term", "drop", "bad") if b.can(a, c)]
-        if not acts:
+        if not random_step(b, rng):
             break
-        a, c = rng.choice(acts)
-        if a == "bad":
-            b.bad(c, kind=rng.choice(["badlen", "panic", "bindunk"]))
-        else:
-            getattr(b, a)(c)
     b.cancel(rng.choice(b.order))
     b.drain()
     b.cancel(rng.choice(b.order))
+    return b
+
+
+def random_step(b, rng, favour=None):
+    if rng.random() < 0.42:
+        r = rng.random()
+        if favour is not None and r < 0.45:
+            b.cancel(favour)
+        elif r < 0.8:
+            b.cancel(rng.choice(b.order))
+        elif r < 0.9:
+            b.cancel("random", rng)
+        else:
+            b.cancel(["pid_of", rng.choice(b.order)])
+        return True
+    acts = [(a, c) for c in b.order for a in ("begin", "stmt", "long", "long", "finish", "finish", "commit", "term", "drop", "bad") if b.can(a, c)]
+    if not acts:
+        return False
+    a, c = rng.choice(acts)
+    if a == "bad":
+        b.bad(c, kind=rng.choice(["badlen", "panic", "bindunk"]))
+    else:
+        getattr(b, a)(c)
+    return True
+
+
+def random_window_program(rng, idx, big):
+    """random program in which one client's error exit is held open at the schedule point while the
+    others go on (and its key keeps being used), then released."""
+    mode = rng.choice(["transaction", "session"])
+    b = Builder(mode, rng.choice([1, 1, 2]), rng.choice([2, 3]), False, "random-window#%d" % idx)
+    for _ in range(rng.randint(1, 5)):
+        random_step(b, rng)
+    # make sure somebody holds a server and is idle, so that the exit is one that puts a server back
+    victims = [c for c in b.order if b.can("drop", c) and b.cl[c]["holds"]]
+    if not victims:
+        for c in b.order:
+            if b.can("begin", c) and b.can("drop", c):
+                b.begin(c)
+                victims = [c]
+                break
+    if not victims:
+        return None
+    v = rng.choice(victims)
+    b.hook([v])
+    how = rng.choice(["drop", "badlen", "bindunk"])
+    b.drop(v, park=True) if how == "drop" else b.bad(v, park=True, kind=how)
+    for _ in range(rng.randint(3, 7) if not big else rng.randint(5, 12)):
+        random_step(b, rng, favour=v)
+    b.unpark(v)
+    for _ in range(rng.randint(1, 4)):
+        random_step(b, rng, favour=v)
+    b.drain()
+    b.cancel(v)
     return b
 
 
@@ -558,9 +598,14 @@ def analyse(meta, res):
         if k["held"] is None:
             if evs:
                 cls = "F13" if k["owner_exiting"] else None
-                v.append((cls, "key of %s (holds no server%s) made the pooler send CancelRequest%s to %s" % (
+                hit = []
+                for x in evs:
+                    for (bk, cn), pk in sess.items():
+                        if bk == x["backend"] and pk == (x["pid"], x["key"]):
+                            hit += ["session %s/%d executing %r" % (bk, cn, sql) for bc, sql in (x.get("busy") or []) if bc == cn]
+                v.append((cls, "key of %s (holds no server%s) made the pooler send CancelRequest%s to %s%s" % (
                     k["owner"], ", task in its exit window" if k["owner_exiting"] else "",
-                    [(x["pid"], x["key"]) for x in evs], [x["backend"] for x in evs])))
+                    [(x["pid"], x["key"]) for x in evs], [x["backend"] for x in evs], (": hits " + "; ".join(hit)) if hit else "")))
         else:
             b, conn = k["held"]
             want = sess[k["held"]]
@@ -737,6 +782,12 @@ def check(run):
     builders = systematic(hook)
     nrand = 90 if quick else 1500
     builders += [random_program(rng, i, not quick) for i in range(nrand)]
+    nwin = 0
+    if hook:
+        wb = [random_window_program(rng, i, not quick) for i in range(16 if quick else 200)]
+        wb = [b for b in wb if b is not None]
+        nwin = len(wb)
+        builders += wb
     if not proof_ok:
         # the model may not even compile: run the monitor alone by evaluating against a trivial model is impossible;
         # fall through to the batch (coq_eval needs Model.vo) only if Model.vo exists
@@ -756,9 +807,9 @@ def check(run):
     run.cov["rule"] = ("systematic families (mode transaction|session x pool_size 1|2 x one pool | two pools on two backends with identical session (pid,key)): "
                        "own-key timings (before any statement, during a gated statement, twice during it, idle in transaction, between transactions, after COMMIT, after X, right pid + wrong secret, random key, other client's key), "
                        "hand-over of a server between two clients incl. cancel while waiting for the pool, error exits (socket closed | malformed Close; in a transaction | idle) followed by reuse of the server; "
-                       "%s; plus %d seeded random client programs (8-14 actions, 2-3 clients; thorough: 12-24 actions, 2-4 clients) with a cancel at ~42%% of the positions. "
+                       "%s; plus %d seeded random client programs (8-14 actions, 2-3 clients; thorough: 12-24 actions, 2-4 clients) with a cancel at ~42%% of the positions and %d random programs with one exit held open at the schedule point. "
                        "evaluations = cancel requests judged three ways (backend packets, trace monitor, Coq model); distinct = distinct (mode, pool size, pools, owner situation, outcome, 3-op context) tuples"
-                       % ("exit-window schedules held open with the schedule point %s (task parked between handle() and the drop of Client, another client takes the server, cancels with the departing key before/after)" % HOOK_POINT if hook else "NO schedule point in /repo: exit-window schedules skipped", nrand))
+                       % ("exit-window schedules held open with the schedule point %s (task parked between handle() and the drop of Client, another client takes the server, cancels with the departing key before/after)" % HOOK_POINT if hook else "NO schedule point in /repo: exit-window schedules skipped", nrand, nwin))
     run.cov["samples"] = samples
     run.cov["input_distribution"] = {"scenarios": stats["scenarios"], "ops": stats["ops"], "cancel_requests": stats["cancels"], "forwarded_to_a_backend": stats["contacts"],
                                      "map_size_snapshots_compared": stats["snapshots"], "by_owner_situation": stats["timing_classes"],
